@@ -203,6 +203,13 @@ Theorem C08_sort_incomparable_raises : forall x y : obj,
 Proof. exact sort_none_if_all_incomparable. Qed.
 Print Assumptions C08_sort_incomparable_raises.
 
+Theorem C08_sort_isolated_raises : forall (pre : list obj) (x : obj) (post : list obj),
+  pre ++ post <> [] ->
+  (forall y, In y (pre ++ post) -> obj_partial_cmp x y = None /\ obj_partial_cmp y x = None) ->
+  sorted_objs (pre ++ x :: post) = Err EValue.
+Proof. exact sort_isolated_raises. Qed.
+Print Assumptions C08_sort_isolated_raises.
+
 (* ---- 8. min / max *)
 Theorem C08_min_max_agree_with_order : forall l : list obj, l <> [] -> pairwise_ncmp l ->
   (exists pre m post, l = pre ++ m :: post /\ builtin_min l = Ok m /\
